@@ -16,6 +16,10 @@ def sh(cmd, cwd=None, env=None):
 rc, out = sh("git status --short", "/repo")
 if out.strip():
     print("REFUSING: /repo not clean"); sys.exit(3)
+rc, out = sh("pgrep -af '[.]/check C[0-9]+ thorough'")
+if out.strip():
+    # a thorough run builds from /repo at the start of every property: patching /repo now would contaminate it
+    print("REFUSING: a thorough run is in progress:\n" + out); sys.exit(3)
 for d in sorted(glob.glob("/verif/seeded/*")):
     mid = os.path.basename(d)
     if ids and mid not in ids: continue
